@@ -63,14 +63,19 @@ func init() {
 		histOrAudit(h, histCfg{prop: "C01", strictBias: 30, withOCSP: true, faulty: true, histLen: 6}, "C01.")
 	}})
 	register(&PropDef{ID: "C10", Plan: func(t string) Plan {
-		p := histPlan(t, histRule+"; the first 48 (thorough: 400) runs are concurrent-strictness scenarios: 2-5 overlapping strict handshakes for one distribution point while its origin fails or stalls or the store cannot switch to the delivered list (8 failure kinds, the last two being a store switch that fails and a staged database that cannot be moved into place, x backend x fetch mode), then while the first good delivery is slow, under seeded preemption")
-		p.Runs += strictConcRuns(t)
-		p.Enumerated = strictConcRuns(t) // they come first and are never cut by the wall-clock budget
+		p := histPlan(t, histRule+"; the first 48 (thorough: 400) runs are concurrent-strictness scenarios: 2-5 overlapping strict handshakes for one distribution point while its origin fails or stalls or the store cannot switch to the delivered list (8 failure kinds, the last two being a store switch that fails and a staged database that cannot be moved into place, x backend x fetch mode), then while the first good delivery is slow, under seeded preemption; 4 more runs: lenient mode, an entry that was never loaded (origin unreachable) whose empty store fails every lookup - it must not be consulted")
+		p.Runs += strictConcRuns(t) + lenientUnloadedRuns(t)
+		p.Enumerated = strictConcRuns(t) + lenientUnloadedRuns(t) // they come first and are never cut by the wall-clock budget
 		return p
 	}, Run: func(h *Harness) {
 		if h.Idx < strictConcRuns(h.Tier) {
 			ownPrefix = "C10."
 			runStrictConcurrent(h, h.Idx)
+			return
+		}
+		if h.Idx < strictConcRuns(h.Tier)+lenientUnloadedRuns(h.Tier) {
+			ownPrefix = "C10."
+			runLenientUnloaded(h, h.Idx-strictConcRuns(h.Tier))
 			return
 		}
 		runCRLHistoryOwned(h, histCfg{prop: "C10", strictBias: 60, faulty: true, histLen: 6}, "C10.")
